@@ -38,7 +38,7 @@ fn enc_field(f: &MField, classes: &mut BTreeSet<&'static str>, out: &mut Vec<u8>
         Ok(FV::Mac(s)) => push(s.as_bytes(), "mac-as-text", classes),
         Ok(FV::Proto(b)) => {
             let e = if *b == 145 { 255 } else { *b };
-            push(&[e], "protocol-145-as-255", classes)
+            push(&[e], "protocol-unknown-as-255", classes)
         }
         Ok(_) => out.extend_from_slice(&f.raw),
         Err(Why::Unrepresentable(_)) => {
@@ -70,21 +70,12 @@ pub fn predict(buf: &[u8], pk: &MPkt, n_sets: usize) -> Option<(Pred, BTreeSet<&
     for s in sets.iter().take(n_sets) {
         out.extend_from_slice(&buf[s.off..s.off + 4]);
         let body = &buf[s.off + 4..s.off + usize::from(s.len)];
+        let _ = body;
         match &s.kind {
             MSetKind::Tpls { .. } | MSetKind::V9OData { .. } => out.extend_from_slice(body),
             MSetKind::Data { recs, pad, def, .. } => {
-                // V9: a record the library cannot hold (protocol 146..254) ends the record list,
-                // the rest is padding and is re-exported verbatim
-                let stop = if pk.version == 9 {
-                    recs.iter().position(|r| r.fields.iter().any(|f| f.dt == Dt::ProtoT && (146..=254).contains(&f.raw[0])))
-                } else {
-                    None
-                };
-                let size: usize = def.all_fields().iter().map(|f| usize::from(f.len)).sum();
-                for (ri, r) in recs.iter().enumerate() {
-                    if Some(ri) == stop {
-                        break;
-                    }
+                let _ = def;
+                for r in recs.iter() {
                     for f in &r.fields {
                         if enc_field(f, &mut classes, &mut out).is_err() {
                             if classes.contains("duration-overflow-export-error") {
@@ -95,10 +86,7 @@ pub fn predict(buf: &[u8], pk: &MPkt, n_sets: usize) -> Option<(Pred, BTreeSet<&
                         }
                     }
                 }
-                match stop {
-                    Some(k) => out.extend_from_slice(&body[k * size..]),
-                    None => out.extend_from_slice(pad),
-                }
+                out.extend_from_slice(pad);
             }
             MSetKind::UnknownTpl { .. } => return None,
         }
@@ -146,12 +134,7 @@ pub fn check(sim: &mut Sim, prop: &str, d: &Delivery, w: &Walk, r: &[NetflowPack
         let mpk = if w.conformant() { w.pkts.iter().find(|p| p.start == offs[i] && p.version == ver && !(ver == 9 && p.has_unknown)) } else { None };
         let tainted = mpk
             .map(|pk| match &pk.body {
-                MBody::V9 { sets, .. } | MBody::Ipfix { sets, .. } => sets.iter().any(|s| match &s.kind {
-                    MSetKind::Data { tid, .. } | MSetKind::V9OData { tid, .. } => {
-                        sim.models[d.p].tainted.contains(&(if ver == 9 { Proto::V9 } else { Proto::Ipfix }, *tid))
-                    }
-                    _ => false,
-                }),
+                MBody::V9 { sets, .. } | MBody::Ipfix { sets, .. } => sets.iter().any(|s| s.tainted),
                 _ => false,
             })
             .unwrap_or(false);
